@@ -617,6 +617,13 @@ def search_c08(results, tier, seed, broken):
             if g["code"] == 99:
                 hits.append(_hhit(r, "grid:%s" % g["curve"], "verify panics on a decoded proof with |L_vec|=%d |R_vec|=%d for a circuit with %d multipliers (%d first-phase), generator capacity %d, identity/zero placement %d" % (
                     g["lL"], g["lR"], g["n"], g["n1"], g["cap"], g["idflag"])))
+        for ip in H.get("idpat", []):
+            n += 1
+            dist["identity pattern verify=%d batch=%d/%d" % (ip["verify"], ip["batch1"], ip["batch2"])] += 1
+            nontriv.add(("idpat", ip["sample"], ip["pattern"]))
+            if 99 in (ip["verify"], ip["batch1"], ip["batch2"]):
+                hits.append(_hhit(r, "idpat:%s" % ip["curve"], "panic on a decodable proof with identity / foreign points in pattern %s (second<abc>: state of A_I2, A_O2, S2 with 0 keep, 1 identity, 2 another valid point; id<i>[_<j>]: identity at fixed point i (and j)) on sample circuit %d: verify code %d, batch_verify alone %d, batch_verify next to an honest member %d (99 = panic)" % (
+                    ip["pattern"], ip["sample"], ip["verify"], ip["batch1"], ip["batch2"])))
         for b in H["batch"]:
             n += 1
             dist["batch code=%d" % b["code"]] += 1
@@ -737,6 +744,11 @@ def search_c12(results, tier, seed, broken):
                             hits.append(_hit(r, comp, streams, cid, "size_hint is wrong or underflows along the iteration: " + s["line"]))
                         if len(fl) > 1 and fl[1] != 1:
                             hits.append(_hit(r, comp, streams, cid, "nth / skip / step_by / last / count on the aggregated iterator do not list the same sequence as next(): " + s["line"]))
+                elif tag == "gens-interleave":
+                    v = im.get(92, ["-"])
+                    dist["interleaved two-curve histories in one process"] += 42
+                    if v and v[0] != "-":
+                        hits.append(_hit(r, comp, streams, cid, "generators depend on the process history: with objects of two curves created and grown in interleaved order in one process, %s differs from the independent derivation" % v[0]))
                 elif tag == "gens-values":
                     v = im.get(91, [])
                     if len(v) >= 7:
@@ -923,7 +935,7 @@ PROPS = {
     "C02": {
         "prop_files": ["Properties/C02.v"], "run_files": ["Run/R1cs.v"],
         "level": "proof",
-        "components": lambda tier: [("r1cs", ["violate", "honest", "manycons", "forwardref"], {})],
+        "components": lambda tier: [("r1cs", ["violate", "cancelrows", "honest", "manycons", "forwardref"], {})],
         "search": search_c02,
         "assumptions": ["field and F-module laws, B <> 0; oracle idealisation; the probability statement itself is not formalised (counting form proved)"],
     },
